@@ -453,7 +453,11 @@ impl BuiltInFunction {
                     format!("top vector index `{top}` could not be used to index (usize)")
                 })?;
 
-                Ok((Some(Primitive::Str(s[bottom..top].to_owned())), None))
+                let slice = s.get(bottom..top).with_context(|| {
+                    format!("substring from index {bottom} to index {top} is out of bounds of `{s}` (or not on a character boundary)")
+                })?;
+
+                Ok((Some(Primitive::Str(slice.to_owned())), None))
             }
             Self::StrContains => {
                 let Some(Primitive::Str(s)) = arguments.first() else {
@@ -525,14 +529,15 @@ impl BuiltInFunction {
 
                 let mut result = original.clone();
 
-                result.insert_str(
-                    (*bottom).try_into().with_context(|| {
-                        format!(
-                            "string insertion index `{bottom}` could not be used to index (usize)"
-                        )
-                    })?,
-                    new,
-                );
+                let index: usize = (*bottom).try_into().with_context(|| {
+                    format!("string insertion index `{bottom}` could not be used to index (usize)")
+                })?;
+
+                if !original.is_char_boundary(index) {
+                    bail!("insertion index {index} is out of bounds of `{original}` (or not on a character boundary)")
+                }
+
+                result.insert_str(index, new);
                 Ok((Some(Primitive::Str(result)), None))
             }
             Self::StrReplace => {
@@ -579,8 +584,12 @@ impl BuiltInFunction {
 
                 let mut result = String::with_capacity(s.len().saturating_sub(top - bottom));
 
-                result.push_str(&s[..bottom]);
-                result.push_str(&s[top..]);
+                let (Some(head), Some(tail)) = (s.get(..bottom), s.get(top..)) else {
+                    bail!("deletion from index {bottom} to index {top} is out of bounds of `{s}` (or not on a character boundary)")
+                };
+
+                result.push_str(head);
+                result.push_str(tail);
 
                 Ok((Some(Primitive::Str(result)), None))
             }
@@ -763,11 +772,15 @@ impl BuiltInFunction {
                     ));
                 }
 
-                let (lhs, rhs) = s.split_at(
-                    (*mid)
-                        .try_into()
-                        .with_context(|| format!("`{mid}` is an invalid index (usize)"))?,
-                );
+                let mid: usize = (*mid)
+                    .try_into()
+                    .with_context(|| format!("`{mid}` is an invalid index (usize)"))?;
+
+                if !s.is_char_boundary(mid) {
+                    bail!("split index {mid} of `{s}` is out of bounds (not on a character boundary)")
+                }
+
+                let (lhs, rhs) = s.split_at(mid);
 
                 Ok((
                     Some(vector![
